@@ -209,6 +209,9 @@ package scipipe
 //@   ensures no-slash: !contains(res, "/")
 //@   ensures prefixed: hasPrefix(res, "_scipipe_tmp") && len(res) > 12
 //@   ensures at-most-255-bytes: len(res) <= 255
+// Known finding F6: the pieces that identify a task (name, path segments of the inputs, name_value of parameters and
+// tags) are concatenated without a separator before hashing, so different tasks of one process can share a temp dir.
+//@   atcall strings.Join pieces-stay-separable[C14]: $arg1 != ""
 
 //@ func (*Task).tempDirsExist(t) (res)
 //@   props C03
@@ -482,6 +485,7 @@ package scipipe
 // ---------------------------------------------------------------------------
 
 //@ define anyOutExists(t *Task) bool = exists k string :: nonStreamOut(t, k) && statOK(fsEpoch, t.OutIPs[k].path)
+//@ define allOutsExist(t *Task) bool = forall k string :: nonStreamOut(t, k) ==> statOK(fsEpoch, t.OutIPs[k].path)
 //@ define cmdSucceeded(t *Task) bool = (t.CustomExecute == nil && effExecOK[cmdLine(t, t.Command)]) || (t.CustomExecute != nil && customDone[t])
 //@ define allRenamed(t *Task) bool = forall k string :: nonStreamOut(t, k) ==> effRenamed[tmpOut(t, k)][t.OutIPs[k].path]
 //@ define allChecked(t *Task) bool = forall k string :: nonStreamOut(t, k) ==> !statNotExist(fsEpoch, pathJoin2(tmpDirOf(t), tempPathOf(t.OutIPs[k].path)))
@@ -510,6 +514,9 @@ package scipipe
 //@   ensures done-sent[C02,C05]: chanSentN(t.Done) == old(chanSentN(t.Done)) + 1
 //@   ensures slots-balanced[C06]: held(t.workflow) == old(held(t.workflow))
 //@   ensures skipped-or-finalized[C05,C09]: old(anyOutExists(t)) || (cmdSucceeded(t) && allRenamed(t))
+// Known finding F2: a task with several outputs whose earlier run was killed between two of its renames is skipped on
+// the next run (some output exists) although another output is still missing: the restart does not converge.
+//@   ensures skip-leaves-no-output-missing[C03]: old(anyOutExists(t)) ==> old(allOutsExist(t))
 //@   atcall (*Workflow).IncConcurrentTasks skip-takes-no-slots[C02,C06]: old(!anyOutExists(t)) && statNotExist(old(fsEpoch), tmpDirOf(t))
 //@   atcall (*Task).executeCommand holds-cores[C06]: held(t.workflow) == old(held(t.workflow)) + ite(t.cores > 0, t.cores, 0)
 //@   atcall fieldcall:Task.CustomExecute holds-cores[C06]: held(t.workflow) == old(held(t.workflow)) + ite(t.cores > 0, t.cores, 0)
@@ -743,6 +750,9 @@ package scipipe
 // (a limit of n >= 1 replacements per loop round is as good as "all": the loop runs once per occurrence found by the
 // regexp, so k occurrences of the same placeholder get k rounds; only n == 0 would leave placeholders behind)
 //@   atcall strings.Replace every-occurrence-replaced[C15]: $arg3 != 0 && $arg1 == placeHolder.match && $arg2 == replacement
+// Known finding F5: the placeholders are replaced one after the other in the evolving command, so placeholder-like text
+// inside an inserted value (a parameter value "{i:x}", a path containing braces) is expanded again by a later round.
+//@   atcall strings.Replace inserted-text-is-not-expanded-again[C15]: !matches(replacement, "{(o|os|i|is|p|t):([^{}]+)}")
 //@   atcall strings.Replace known-type[C09,C15]: portInfo.portType == "o" || portInfo.portType == "os" || portInfo.portType == "i" || portInfo.portType == "p" || portInfo.portType == "t"
 //@   atcall strings.Replace case-o[C01,C13,C15]: portInfo.portType == "o" ==> outIPs[portName] != nil && replacement == replaceAll(applyMods(tempPathOf(outIPs[portName].path), placeHolder.modifiers), "../", "__parent__")
 //@   atcall strings.Replace case-os[C15,C17]: portInfo.portType == "os" ==> outIPs[portName] != nil && replacement == ite(hasMod(placeHolder.modifiers, "basename"), applyMods(outIPs[portName].path + ".fifo", placeHolder.modifiers), prependOf(applyMods(outIPs[portName].path + ".fifo", placeHolder.modifiers)))
